@@ -582,11 +582,11 @@ class ScipyMinimizeAlgorithm(
         # Easier to pass a Dataset with 1 individual rather than individual times, values
         # to avoid duplicating code in noise model especially
         df = dataset.to_pandas()
-        import pandas as pd
-
-        assert pd.api.types.is_string_dtype(
-            df.index.dtypes["ID"]
-        ), "Individuals ID should be strings"
+        # Identifiers may be integers (accepted at ingestion): individual parameters are keyed by strings,
+        # and `Data.__getitem__` would read integers as positions
+        df.index = df.index.set_levels(
+            df.index.levels[df.index.names.index("ID")].astype(str), level="ID"
+        )
 
         if "joint" in model.name:
             data_type = "joint"
@@ -604,7 +604,7 @@ class ScipyMinimizeAlgorithm(
         )
 
         datasets = {
-            idx: Dataset(data[[idx]], no_warning=True) for idx in dataset.indices
+            idx: Dataset(data[[str(idx)]], no_warning=True) for idx in dataset.indices
         }
 
         # Fetch model internal state (latent pop. vars should be OK)
